@@ -1,5 +1,5 @@
 (* C04 - faithful model of serde-rename-rule 0.2.3 RenameRule::apply_to_field as called by
-   NamingContext::compute_parameter_name (template_context.rs:60-80), on UTF-8 byte strings.
+   NamingContext::apply_naming_convention / compute_parameter_name (template_context.rs), on UTF-8 byte strings.
    Definitions only. The slices pascal[..1] and pascal[1..] of the CamelCase arm are modelled
    with their panics: index 1 out of range (empty string) or not on a character boundary. *)
 From Coq Require Import String Ascii.
@@ -40,6 +40,16 @@ Definition camel_b (s : str) : outcome str :=
                  end
   end.
 
+(* template_context.rs apply_naming_convention, CamelCase arm (call-site guard added by the repair
+   C15-fix-C15-camel-call-site-guard): pascal = PascalCase.apply_to_field(name); if it has a first
+   character, that character's to_ascii_lowercase followed by the rest; if it is empty, the name itself.
+   On bytes: only an ASCII capital is changed, so a multi-byte first character is left alone. *)
+Definition camel_guard (s : str) : str :=
+  match pascal true s with
+  | [] => s
+  | c :: rest => lower c :: rest
+  end.
+
 (* the eight rules of RENAME_RULES, in the order of the table *)
 Inductive rule := RLower | RUpper | RPascal | RCamel | RSnake | RScreamingSnake | RKebab | RScreamingKebab.
 
@@ -60,7 +70,7 @@ Definition apply_rule (r : rule) (s : str) : outcome str :=
   | RLower | RSnake => Ok s                                   (* field.into() *)
   | RUpper | RScreamingSnake => Ok (map upper s)              (* to_ascii_uppercase *)
   | RPascal => Ok (pascal true s)
-  | RCamel => camel_b s
+  | RCamel => Ok (camel_guard s)                            (* guarded at the call site; the crate's own arm is camel_b *)
   | RKebab => Ok (map us_to_dash s)                           (* replace('_', "-") *)
   | RScreamingKebab => Ok (map us_to_dash (map upper s))
   end.
